@@ -233,7 +233,56 @@ def _elim_returns(stmts: List[ast.stmt], result) -> List[ast.stmt]:
             st.body = _elim_returns(st.body, result)
             out.append(st)
             return out
+        if isinstance(st, (ast.While, ast.For)) and not st.orelse and not _loop_level(st.body, ast.Break):
+            # returns inside a loop that has no break of its own: `return v` becomes `<result v>; break`, and what follows the loop
+            # (it runs only when no return happened) becomes the loop's else clause
+            st.body = _loop_returns_to_breaks(st.body, result)
+            tail = _elim_returns(rest, result) if rest else []
+            st.orelse = tail
+            out.append(st)
+            return out
         raise _NoFit()
+    return out
+
+
+def _loop_level(stmts, kind) -> bool:
+    """does the block contain a statement of ``kind`` that belongs to *this* loop (not to a nested loop / function)?"""
+    for st in stmts:
+        if isinstance(st, kind):
+            return True
+        if isinstance(st, (ast.While, ast.For, ast.FunctionDef, ast.AsyncFunctionDef, ast.ClassDef)):
+            if isinstance(st, (ast.While, ast.For)) and _loop_level(st.orelse, kind):
+                return True
+            continue
+        for fld in ("body", "orelse", "finalbody"):
+            v = getattr(st, fld, None)
+            if isinstance(v, list) and v and isinstance(v[0], ast.stmt) and _loop_level(v, kind):
+                return True
+        if isinstance(st, ast.Try) and any(_loop_level(h.body, kind) for h in st.handlers):
+            return True
+    return False
+
+
+def _loop_returns_to_breaks(stmts, result):
+    out = []
+    for st in stmts:
+        if isinstance(st, ast.Return):
+            out.extend(result(st.value, st))
+            out.append(ast.copy_location(ast.Break(), st))
+            return out
+        if not _has_return([st]):
+            out.append(st)
+            continue
+        if isinstance(st, ast.If):
+            st.body = _loop_returns_to_breaks(st.body, result)
+            st.orelse = _loop_returns_to_breaks(st.orelse, result)
+            out.append(st)
+            continue
+        if isinstance(st, ast.With):
+            st.body = _loop_returns_to_breaks(st.body, result)
+            out.append(st)
+            continue
+        raise _NoFit()          # a return inside a nested loop / try: not rewritten
     return out
 
 
@@ -607,6 +656,15 @@ def inline_view(prog: Program, cls: Optional[Cls], f: Func) -> Func:
         cache[key] = f
         return f
     doc = node.body[:len(node.body) - len(body)]
+    # constants bound to parameters of the inlined helpers (`ordered=True`) leave `if True:` / `a if True else b` behind: folded
+    from .normalise import _FoldConst
+    folded = []
+    for st_ in new_body:
+        r_ = _FoldConst().visit(st_)
+        if r_ is None:
+            continue
+        folded += r_ if isinstance(r_, list) else [r_]
+    new_body = folded
     node.body = doc + (new_body or [ast.copy_location(ast.Pass(), node)])
     ast.fix_missing_locations(node)
     set_parents(node)
